@@ -265,9 +265,12 @@ func (p *idp) token(w http.ResponseWriter, r *http.Request, idpID string) {
 		issue = true
 	case mode == "fail-before" || mode == "drop":
 		status, body = 500, []byte(`{"error":"server_error"}`)
-	case mode == "fail-after":
+	case mode == "fail-after" || mode == "drop-after" || strings.HasPrefix(mode, "fail-after:"):
 		issue = reqOK
 		status = 500
+		if strings.HasPrefix(mode, "fail-after:") {
+			_, _ = fmt.Sscanf(mode, "fail-after:%d", &status)
+		}
 	case strings.HasPrefix(mode, "status:"):
 		_, _ = fmt.Sscanf(mode, "status:%d", &status)
 		body = []byte(`{"error":"x"}`)
@@ -312,7 +315,7 @@ func (p *idp) token(w http.ResponseWriter, r *http.Request, idpID string) {
 	ev["issued"] = issued
 	d.rec.emit(ev)
 
-	if mode == "drop" {
+	if mode == "drop" || mode == "drop-after" {
 		// transport-level failure: the connection is closed without an answer
 		if hj, ok := w.(http.Hijacker); ok {
 			if conn, _, err := hj.Hijack(); err == nil {
@@ -321,7 +324,7 @@ func (p *idp) token(w http.ResponseWriter, r *http.Request, idpID string) {
 			}
 		}
 	}
-	if mode == "fail-after" || mode == "fail-before" || mode == "drop" {
+	if strings.HasPrefix(mode, "fail-after") || mode == "fail-before" || mode == "drop" || mode == "drop-after" {
 		w.WriteHeader(status)
 		_, _ = w.Write([]byte(`{"error":"server_error"}`))
 		return
@@ -337,7 +340,7 @@ func answerClass(mode string, status int, issued bool) string {
 		return "odd"
 	case status == 200 && issued:
 		return "ok"
-	case mode == "fail-after" && issued:
+	case (strings.HasPrefix(mode, "fail-after") || mode == "drop-after") && issued:
 		return "failAfter"
 	default:
 		return "fail"
